@@ -60,6 +60,19 @@ class _Ev:
     def __init__(self, fn, P):
         self.fn = fn
         self.P = P
+        self.ptr = {}       # rendering of a pointer-typed sum -> its pointer operand (a one-atom polynomial)
+
+    def split_ptr(self, v):
+        """(base, index) of a pointer value `base + index`, or None"""
+        if len(v) <= 1:
+            return None
+        base = self.ptr.get(lin.p_str(v))
+        if base is None:
+            cands = [m for m in v if len(m) == 1 and v[m] == 1 and "(" not in m[0] and not m[0].lstrip("-").isdigit()]
+            if len(cands) != 1:
+                return None
+            base = {cands[0]: 1}
+        return base, lin.p_add(v, base, -1)
 
     # ---- lvalue paths ---------------------------------------------------
     def lv(self, p, j):
@@ -76,15 +89,26 @@ class _Ev:
             if nd.get("arrow"):
                 if bn["k"] == "Un" and bn["op"] == "&":
                     return "%s.%s" % (self.lv(p, bn["ch"][0]), nd["field"])
-                bv = lin.p_str(self.ev(p, b))
+                bp_ = self.ev(p, b)
+                bv = lin.p_str(bp_)
                 if bv.startswith("&") and " + " not in bv:
                     return "%s.%s" % (bv[1:], nd["field"])          # (&X)->f is X.f
+                sp_ = self.split_ptr(bp_)
+                if sp_ is not None:
+                    # (ptr + i)->f is ptr[i].f
+                    return "%s[%s].%s" % (_wrap(lin.p_str(sp_[0])), lin.p_str(sp_[1]), nd["field"])
                 return "%s->%s" % (_wrap(bv), nd["field"])
             if bn["k"] == "Un" and bn["op"] == "*":
                 return "%s->%s" % (_wrap(lin.p_str(self.ev(p, bn["ch"][0]))), nd["field"])
             return "%s.%s" % (self.lv(p, b), nd["field"])
         if k == "Subscript":
-            return "%s[%s]" % (_wrap(lin.p_str(self.ev(p, nd["ch"][0]))), lin.p_str(self.ev(p, nd["ch"][1])))
+            bv = self.ev(p, nd["ch"][0])
+            iv = self.ev(p, nd["ch"][1])
+            sp_ = self.split_ptr(bv)
+            if sp_ is not None:
+                # (ptr + a)[b] is ptr[a + b]
+                bv, iv = sp_[0], lin.p_add(iv, sp_[1])
+            return "%s[%s]" % (_wrap(lin.p_str(bv)), lin.p_str(iv))
         if k == "Un" and nd["op"] == "*":
             inner = fn.strip(nd["ch"][0])
             if fn.nodes[inner]["k"] == "Un" and fn.nodes[inner]["op"] == "&":
@@ -152,6 +176,15 @@ class _Ev:
             if op == "*":
                 return p.get(self.lv(p, j))
             if op == "&":
+                sj = fn.strip(nd["ch"][0], casts=False)
+                if fn.nodes[sj]["k"] == "Subscript":
+                    # &a[i] is a + i
+                    bv_, iv_ = self.ev(p, fn.nodes[sj]["ch"][0]), self.ev(p, fn.nodes[sj]["ch"][1])
+                    r_ = lin.p_add(bv_, iv_)
+                    base = bv_ if (len(bv_) == 1 and list(bv_.values()) == [1]) else self.ptr.get(lin.p_str(bv_))
+                    if base is not None and len(r_) > 1:
+                        self.ptr[lin.p_str(r_)] = base
+                    return r_
                 return lin.p_atom("&" + _wrap(self.lv(p, nd["ch"][0])))
             if op == "-":
                 return lin.p_mul(lin.p_const(-1), self.ev(p, nd["ch"][0]))
@@ -172,10 +205,16 @@ class _Ev:
             if op in ("&&", "||"):
                 return lin.p_atom("(%s %s %s)" % (fn.canon(a, subst=False), op, fn.canon(b, subst=False)))
             va, vb = self.ev(p, a), self.ev(p, b)
-            if op == "+":
-                return lin.p_add(va, vb)
-            if op == "-":
-                return lin.p_add(va, vb, -1)
+            if op in ("+", "-"):
+                r_ = lin.p_add(va, vb, 1 if op == "+" else -1)
+                if "*" in nd.get("ct", nd.get("t", "")):
+                    # remember which operand of a pointer-typed sum is the pointer
+                    pa = "*" in fn.nodes[a].get("ct", fn.nodes[a].get("t", "")) or "[" in fn.nodes[a].get("t", "")
+                    pv = va if pa else vb
+                    base = pv if (len(pv) == 1 and list(pv.values()) == [1]) else self.ptr.get(lin.p_str(pv))
+                    if base is not None and len(r_) > 1:
+                        self.ptr[lin.p_str(r_)] = base
+                return r_
             if op == "*":
                 return lin.p_mul(va, vb)
             if op == ",":
@@ -290,7 +329,7 @@ class _Ev:
             if op == "==":
                 for vz, vo in ((vb, va), (va, vb)):
                     if not vz:
-                        if len(vo) == 1 and list(vo.values()) == [1] and list(vo.keys())[0][0].startswith("&"):
+                        if (len(vo) == 1 and list(vo.values()) == [1] and list(vo.keys())[0][0].startswith("&")) or lin.p_str(vo) in self.ptr:
                             return None, pol, (not pol)      # &x == NULL is false
                         return ("nz", lin.p_str(vo)), not pol, None
                 sa, sb = sorted((lin.p_str(va), lin.p_str(vb)))
@@ -299,7 +338,7 @@ class _Ev:
         v = self.ev(p, j)
         if not v or list(v.keys()) == [()]:
             return None, pol, (bool(v.get((), 0)) == pol)
-        if len(v) == 1 and list(v.values()) == [1] and list(v.keys())[0][0].startswith("&"):
+        if (len(v) == 1 and list(v.values()) == [1] and list(v.keys())[0][0].startswith("&")) or lin.p_str(v) in self.ptr:
             return None, pol, pol            # the address of an object is not null
         return ("nz", lin.p_str(v)), pol, None
 
@@ -379,12 +418,19 @@ def run_paths(fn, P=None, limit=4096, start=None, stops=None):
         from . import paths as _paths
         ln = headers[b]
         mem = False
+        consts = {}
         for s_ in _paths.stores(fn, ln):
             nm = s_["path"]
-            if all(ch.isalnum() or ch == "_" for ch in nm):
-                p.env[nm] = lin.p_atom("%s@L%d%s" % (nm, loop_no[ln], "+" if again else ""))
+            if all(ch.isalnum() or ch in "_$" for ch in nm):
+                cv_ = fn.constval(s_["rhs"]) if (s_["op"] == "=" and s_["rhs"] is not None) else None
+                consts.setdefault(nm, set()).add(cv_)
             else:
                 mem = True
+        for nm, cs_ in consts.items():
+            # a flag that the loop only ever sets to one constant keeps that constant once it has it
+            if len(cs_) == 1 and None not in cs_ and p.env.get(nm) == lin.p_const(list(cs_)[0]):
+                continue
+            p.env[nm] = lin.p_atom("%s@L%d%s" % (nm, loop_no[ln], "+" if again else ""))
         for v_ in fn.find("Var", root=ln):
             p.env.pop(fn.nodes[v_]["name"], None)
         if mem or fn.calls(root=ln):
@@ -500,4 +546,10 @@ def field_of(term, field):
     """the lvalue path of `term->field` as the evaluator spells it"""
     if term.startswith("&") and " + " not in term:
         return "%s.%s" % (term[1:], field)
+    parts = term.split(" + ")
+    if len(parts) == 2 and "(" not in term:
+        # a pointer sum `base + index` (base is the path, index the plain name or number)
+        base, idx = (parts[0], parts[1]) if ("->" in parts[0] or "." in parts[0]) else (parts[1], parts[0])
+        if ("->" in base or "." in base) and "->" not in idx and "." not in idx:
+            return "%s[%s].%s" % (base, idx, field)
     return "%s->%s" % (_wrap(term), field)
